@@ -512,6 +512,65 @@ def r_alias_through_anonymous(r, prog):
         r.finding('alias-containment-not-reported', ct.span, 'check_type_alias_for_cycles does not report an error')
     r.floor(5)
 
+
+def r_search_state_and_identity(r, prog):
+    """(a) every root search starts from fresh state; (b) candidates scan all their fields on every path; (c) cycles are identified by scoped names"""
+    CDT = CD + "CycleDetector::<'a>::"
+    ci = prog.fn(CDT + 'check_interface_for_inheritance_cycles')
+    fp = [c for c in ci.calls() if c.name() == 'find_inheritance_path' and not ci.blocks[c.bb].get('cleanup')]
+    if len(fp) != 1:
+        raise AnchorMissing('the root call of find_inheritance_path')
+    a = [vexpr(ci, x) for x in fp[0].args]
+    if a[0] == 'arg2' and a[1] == 'module_scoped_identifier(arg2)' and a[2] == 'new()' and a[3] == 'new()':
+        r.ok('the inheritance search of every interface starts with an empty visited set and an empty path of its own')
+    else:
+        r.finding('inheritance-search-state-shared', fp[0].span,
+                  'the inheritance search is started with visited=%s path=%s: state that survives from one interface to the next hides loops first reached from outside (every interface must be searched from fresh state)' % (a[2][:60], a[3][:60]))
+    # (b) candidates: no exit before the scan
+    for imp in prog.impls_of(CD + 'CycleCandidate'):
+        f = None
+        for m in imp['methods']:
+            if m['n'] == 'check_for_cycles':
+                f = prog.fns.get(m['path'])
+        if f is None:
+            continue
+        rets = [i for i, b in enumerate(f.blocks) if b['t']['k'] == 'return']
+        scans = [c for c in f.calls() if c.name() in ('check_fields_for_cycles',) and not f.blocks[c.bb].get('cleanup')]
+        its = [c for c in f.calls() if c.name() == 'next' and not f.blocks[c.bb].get('cleanup')]
+        through = [c.bb for c in its] if its else [c.bb for c in scans]
+        adt = imp['self_adt'].rsplit('::', 1)[-1]
+        if scans and through and must_pass(f, 0, rets, through):
+            r.ok('%s::check_for_cycles scans its fields on every path (no exit before the scan)' % adt)
+        else:
+            r.finding('candidate-exit-before-scan:%s' % adt, f.span, '%s::check_for_cycles can return without scanning the fields of the type: cycles through such a type are never found' % adt)
+    # (c) identity of a cycle: module-scoped identifiers
+    rc = prog.fn(CDT + 'report_cycle_error')
+    ins = [c for c in rc.calls() if c.name() == 'insert' and 'reported_cycles' in vexpr(rc, c.args[0]) and not rc.blocks[c.bb].get('cleanup')]
+    cl = [f for f in prog.fns.values() if f.path.startswith(rc.path + '::{closure')]
+    keycl = [f for f in cl if f.local_ty(0) == 'alloc::string::String']
+    pushes = []
+    for f in prog.fns.values():
+        if f.path.startswith(CDT):
+            for c in f.calls():
+                if c.name() == 'push' and 'dependency_stack' in vexpr(f, c.args[0]) and not f.blocks[c.bb].get('cleanup'):
+                    pushes.append((f, vexpr(f, c.args[1])))
+    ok_ins = len(ins) == 1 and vexpr(rc, ins[0].args[1]) == 'collect(map(iter(arg1.dependency_stack),closure()))'
+    ok_cl = len(keycl) == 1 and vexpr(keycl[0], {'cp': {'l': 0}}) == 'clone(arg2.0)'
+    ok_push = pushes and all(re.match(r'^tuple\(module_scoped_identifier\(arg2\),arg3\)$', v) for f, v in pushes)
+    if ok_ins and ok_cl and ok_push:
+        r.ok('a reported cycle is identified by the module-scoped identifiers of the types on it')
+    else:
+        r.finding('cycle-identity-not-scoped', rc.span, 'reported cycles are de-duplicated by %s / %s built from %s: two different cycles whose members share unscoped names would be reported once' % (
+            [vexpr(rc, c.args[1])[:60] for c in ins], [vexpr(f, {'cp': {'l': 0}})[:40] for f in keycl], [v[:50] for f, v in pushes]))
+    ii = [c for c in ci.calls() if c.name() == 'insert' and 'reported_cycles' in vexpr(ci, c.args[0]) and not ci.blocks[c.bb].get('cleanup')]
+    fi = prog.fn(CDT + 'find_inheritance_path')
+    pp = [vexpr(fi, c.args[1]) for c in fi.calls() if c.name() == 'push' and not fi.blocks[c.bb].get('cleanup')]
+    if len(ii) == 1 and re.match(r'^collect\(cloned\(iter\(new\(\)\)\)\)$', vexpr(ci, ii[0].args[1])) and pp and all(re.match(r'^(clone\()?module_scoped_identifier\(', v) for v in pp):
+        r.ok('an inheritance loop is identified by the module-scoped identifiers of the interfaces on it')
+    else:
+        r.finding('inheritance-loop-identity-not-scoped', ci.span, 'inheritance loops are de-duplicated by %s built from %s' % ([vexpr(ci, c.args[1])[:60] for c in ii], pp))
+    r.floor(5)
+
 def run(ctx):
     prog = ctx.prog
     ctx.run_rule('C05.1a', 'T2', 'cycle detection runs first; everything else in validate_ast is behind the no-errors edge', r_cycles_first, prog)
@@ -523,3 +582,4 @@ def run(ctx):
     ctx.run_rule('C05.4', 'T9', 'alias chain loop: membership exit, chain grows, E019 on that edge', r_alias_loop, prog)
     ctx.run_rule('C05.5', 'T8', 'inheritance loops rejected before any consumer of the base closure; guarded search', r_inheritance, prog)
     ctx.run_rule('C05.6', 'T2', 'aliases that contain themselves through anonymous types are rejected before any recursive walk over type expressions', r_alias_through_anonymous, prog)
+    ctx.run_rule('C05.7', 'T10', 'fresh search state per root; candidates scan on every path; cycles identified by scoped names', r_search_state_and_identity, prog)
